@@ -263,6 +263,7 @@ class Harness(object):
         self.notes = []
         self.snap = {}
         self.fired = None
+        self.fired2 = None
         self.hang = False
         w = WORKLOADS[workload]
         self.handshake_ok = {"A": False, "B": False}
@@ -368,7 +369,11 @@ class Harness(object):
         if label in self.outcomes:
             return
         stream = self.net.streams[side]
-        self.rec.log(t="api_wait", side=side, label=label, own_closed=stream.closed)
+        try:
+            expired = bool(ar.expired)          # its own timeout has passed already: wait() will not serve at all
+        except Exception:  # noqa
+            expired = False
+        self.rec.log(t="api_wait", side=side, label=label, own_closed=stream.closed, expired=expired)
         try:
             ar.wait()
             if label not in self.outcomes:
@@ -377,7 +382,7 @@ class Harness(object):
         except BaseException as ex:  # noqa
             out = self.classify(ex)
             self.outcomes.setdefault(label, []).append(out)
-            if out == "timeout":
+            if out == "timeout" and not expired:
                 self.rec.log(t="api_timeout", side=side, label=label)
         self.api_ret(side, "wait")
 
@@ -406,9 +411,21 @@ class Harness(object):
     # ------------------------------------------------------------------ fault injection
     def injector(self, info):
         f = self.fault
-        if f is None or self.fired is not None or info["k"] != f["k"]:
+        if f is None:
             return
-        self.fired = dict(op=info["op"], side=info["side"])
+        if self.fired is not None:
+            # a second fault, `after` transport calls later (fault sequences)
+            f2 = f.get("then")
+            if f2 is None or self.fired2 is not None or info["k"] != self.fired["k"] + f2["after"]:
+                return
+            self.fired2 = dict(op=info["op"], side=info["side"], k=info["k"])
+            f = f2
+        else:
+            if info["k"] != f["k"]:
+                return
+            self.fired = dict(op=info["op"], side=info["side"], k=info["k"])
+        if f["how"] == "oserr" and info["op"] != "poll":
+            return
         stream = info["stream"]
         ent = info.get("entry")
         if f["how"] == "oserr":
@@ -706,6 +723,41 @@ def w_timeout(h):
     h.close("A")                                                    # B is still inside its handler
 
 
+def w_poll_all(h):
+    """the application serves through poll_all() / AsyncResult.ready instead of waiting"""
+    b = warm(h, ("echo", "mklist"))
+    if not b:
+        return
+    h.request("A", "a", b["echo"], (56,))
+    h.request("A", "a", b["mklist"], (57,))
+    for _ in range(2):
+        try:
+            h.ca.poll_all(0.5)                                      # (catches EOFError itself)
+            h.api_ret("A", "request")
+            for label in list(h.asyncs):
+                h.asyncs[label][1].ready                            # (serves through poll_all as well)
+            h.api_ret("A", "request")
+        except BaseException as ex:  # noqa
+            if isinstance(ex, Deadlock):
+                h.hang = True
+            break
+    h.close("A")
+
+
+def w_expired_wait(h):
+    """a result is waited for only after its own timeout has passed: wait() does not touch the connection"""
+    b = warm(h, ("echo", "slow"))
+    if not b:
+        return
+    h.request("A", "a", b["slow"], (100,))
+    for label in list(h.asyncs):
+        h.asyncs[label][1].set_expiry(5)
+    h.request("A", "s", b["slow"], (100,))                         # times out after 30: the first one expired long ago
+    for label in list(h.asyncs):
+        h.wait(label)
+    h.close("A")
+
+
 def w_close_a_then_b(h):
     b = warm(h)
     if not b:
@@ -784,6 +836,8 @@ WORKLOADS = {
     "close_in_callback_ref": dict(run=w_close_in_callback_ref),
     "peer_closes": dict(run=w_peer_closes),
     "timeout": dict(run=w_timeout),
+    "expired_wait": dict(run=w_expired_wait),
+    "poll_all": dict(run=w_poll_all),
     "close_a_then_b": dict(run=w_close_a_then_b),
     "close_b_then_a": dict(run=w_close_b_then_a),
     "close_both_at_once": dict(run=w_close_both_at_once),
@@ -967,9 +1021,9 @@ def abstract(h, side):
             s = ids.get(e["label"])
             if s is None:
                 continue
-            toks.append("w%d:Fe" % s)
+            toks.append("w%d:%se" % (s, "T" if e.get("expired") else "F"))
             last_r = len(toks) - 1
-            if e["own_closed"]:
+            if e["own_closed"] and not e.get("expired"):
                 skip_poll_fail += 1
             continue
         if t == "api_timeout":
@@ -1091,6 +1145,14 @@ def fault_points(workload, cuts, rng=None):
                     offs = sorted(set(o for o in pick if 0 <= o < n))
                 for at in offs:
                     faults.append(dict(k=e["call"], how="cut", at=at))
+    # fault sequences: a second fault a few transport calls after the first one
+    if rng is not None:
+        singles = [f for f in faults if f and f["how"] in ("err", "eof")]
+        n2 = len(singles) if cuts == "all" else min(14, len(singles))
+        for i in range(n2):
+            f1 = singles[i] if cuts == "all" else singles[rng.below(len(singles))]
+            for after in ((1, 2, 3, 5) if cuts == "all" else (1 + rng.below(4),)):
+                faults.append(dict(k=f1["k"], how=f1["how"], then=dict(after=after, how=rng.choice(["err", "eof"]))))
     return h, faults
 
 
@@ -1152,9 +1214,11 @@ def correspondence(ctx):
         return c
     for wname, f, h, base in runs:
         c.evaluations += 1
-        how = f["how"] if f else "none"
+        how = (f["how"] + ("+" + f["then"]["how"] if f.get("then") else "")) if f else "none"
         c.count("workload:" + wname)
         c.count("fault:" + how)
+        if f and f.get("then") and h.fired2:
+            c.count("second-fault-fired")
         if f and h.fired:
             c.count("fault-op:%s@%s" % (h.fired["op"], h.fired["side"]))
         elif f:
@@ -1732,7 +1796,78 @@ def run_real_threads(transport, scenario, fault=None):
     return res
 
 
+def run_real_bg(transport, scenario):
+    """side A is served by a BgServingThread (the application thread only issues requests); B's end goes away"""
+    box = dict(hooks={"A": 0, "B": 0}, started=threading.Event(), release=threading.Event(), go=threading.Event(),
+               held=[])
+    stra, strb = real_pair(transport)
+    res = dict(transport=transport, scenario=scenario, fault=None, a_out=None, serve_all_returned=None, wait_out=None)
+    threads, toks = [], []
+    stopped = threading.Event()
+    try:
+        sa, sb = RealSvc(box, "A"), RealSvc(box, "B")
+        ca = sa._connect(Channel(stra), {"sync_request_timeout": REAL_CEILING * 2})
+        cb = sb._connect(Channel(strb), {"sync_request_timeout": REAL_CEILING * 2})
+        tb = threading.Thread(target=lambda: _quiet(cb.serve_all), daemon=True, name="real-B")
+        tb.start()
+        threads.append(tb)
+        root = ca.root
+        slow = root.slow
+        bg = rpyc.BgServingThread(ca, callback=stopped.set)        # serves A from now on
+        ar = rpyc.async_(slow)()
+        toks.append("is0:F")
+        if not box["started"].wait(REAL_CEILING):
+            raise Infrastructure("side B never started the handler")
+        strb.close()
+        toks.append("ese")
+        res["closed_in_time"] = wait_until(lambda: ca.closed)
+        res["a_thread_ended"] = wait_until(stopped.is_set)
+        res["serve_all_returned"] = stopped.is_set()
+        outs = {}
+
+        def w_body():
+            try:
+                ar.wait()
+                outs[0] = "v"
+            except EOFError:
+                outs[0] = "eof"
+            except BaseException as ex:  # noqa
+                outs[0] = "other:" + type(ex).__name__
+        tw = threading.Thread(target=w_body, daemon=True, name="real-W")
+        tw.start()
+        threads.append(tw)
+        wait_until(lambda: not tw.is_alive())
+        toks.append("w0:Fe")
+        res["wait_out"] = outs.get(0)
+        res["closed"] = bool(ca.closed)
+        res["hooks"] = box["hooks"]["A"]
+        try:
+            res["tables"] = (len(ca._local_objects._dict), len(ca._proxy_cache), len(ca._request_callbacks))
+        except AttributeError:
+            res["tables"] = None
+        try:
+            ca.close()
+            res["close_again"] = None
+        except BaseException as ex:  # noqa
+            res["close_again"] = type(ex).__name__
+        toks.append("cb")
+        res["hooks_after"] = box["hooks"]["A"]
+    finally:
+        box["release"].set()
+        for st in (stra, strb):
+            try:
+                st.close()
+            except Exception:  # noqa
+                pass
+        for th in threads:
+            th.join(1.0)
+    res["tokens"] = toks
+    return res
+
+
 def run_real_case(case):
+    if case["scenario"] == "abrupt_bg_thread":
+        return run_real_bg(case["transport"], case["scenario"])
     if case["scenario"].endswith("two_waiters") or case["scenario"].endswith("serve_threaded"):
         return run_real_threads(case["transport"], case["scenario"], case.get("fault"))
     if case.get("fault"):
@@ -1820,6 +1955,7 @@ def real_cases():
     for t in REAL_TRANSPORTS:
         cases.append(dict(kind="real", transport=t, scenario="abrupt_two_waiters"))
         cases.append(dict(kind="real", transport=t, scenario="abrupt_serve_threaded"))
+        cases.append(dict(kind="real", transport=t, scenario="abrupt_bg_thread"))
     cases.append(dict(kind="real", transport="socket", scenario="io_error_two_waiters",
                       fault=dict(op="recv", errno="ECONNRESET", after=2)))
     cases.append(dict(kind="real", transport="socket", scenario="io_error_serve_threaded",
